@@ -31,11 +31,12 @@ type c12case struct {
 	Files     []string    `json:"files"` // relative to the project; trailing "/" = directory
 	Outs      []c12out    `json:"outs"`
 	CleanTask bool        `json:"clean_task"`
-	Nested    bool        `json:"nested"`          // invoked from a nested directory
-	HasCache  bool        `json:"has_cache"`       // a .spok directory exists before
-	Links     [][2]string `json:"links,omitempty"` // symlinks: path relative to the project -> target
-	ViaLink   bool        `json:"via_link,omitempty"` // the project (and $HOME) is reached through a symlinked directory
+	Nested    bool        `json:"nested"`                // invoked from a nested directory
+	HasCache  bool        `json:"has_cache"`             // a .spok directory exists before
+	Links     [][2]string `json:"links,omitempty"`       // symlinks: path relative to the project -> target
+	ViaLink   bool        `json:"via_link,omitempty"`    // the project (and $HOME) is reached through a symlinked directory
 	LogicPWD  bool        `json:"logical_pwd,omitempty"` // $PWD holds the working directory as the user spelled it (what a shell does)
+	Prior     []string    `json:"prior_outputs,omitempty"` // an earlier version of the spokfile declared these outputs and its tasks were run; then the spokfile was edited
 }
 
 func (k c12case) key() string { b, _ := json.Marshal(k); return string(b) }
@@ -74,6 +75,13 @@ func c12Gen(r *core.Rng) c12case {
 	k.CleanTask = r.Chance(15)
 	k.ViaLink = r.Chance(20)
 	k.LogicPWD = r.Chance(50)
+	if r.Chance(15) {
+		for _, l := range []string{"gen.txt", "build", "dist", "x.o", "bin/tool", "out", "keep", "src", "notes.md", "a.txt"} {
+			if r.Chance(30) {
+				k.Prior = append(k.Prior, l)
+			}
+		}
+	}
 	k.HasCache = r.Chance(60)
 	nv := 0
 	n := r.Range(0, 5)
@@ -201,7 +209,18 @@ func c12Judge(c *core.Ctx, k c12case, res *core.ShardResult) (vs []core.Violatio
 	}
 	text := k.text(sproj)
 	_ = os.WriteFile(filepath.Join(proj, "spokfile"), []byte(text), 0o644)
-	if k.HasCache {
+	if len(k.Prior) > 0 {
+		// history: the project was built with an earlier spokfile whose tasks declared other outputs
+		// (all of them exist); what that version declared means nothing to --clean now
+		prior := "task old() -> (\"" + strings.Join(k.Prior, "\", \"") + "\", \"never-existed.out\") {\n    true\n}\n\ntask older(\"*.txt\") -> \"*.md\" {\n    true\n}\n"
+		_ = os.WriteFile(filepath.Join(proj, "spokfile"), []byte(prior), 0o644)
+		pinv := core.RunSpok(core.SpokOpts{Bin: c.SpokRace(), Dir: sproj, Home: shome, Args: []string{"old", "older"}})
+		if pinv.Exit != 0 {
+			core.Fatal("c12: the prior run failed: %s", core.Trunc(pinv.Stderr, 400))
+		}
+		_ = os.WriteFile(filepath.Join(proj, "spokfile"), []byte(text), 0o644)
+		res.Count("cases_with_an_earlier_spokfile_version", 1)
+	} else if k.HasCache {
 		_ = core.WriteFiles(proj, map[string]string{".spok/cache.json": `{"build":"","other":""}`, ".spok/.gitignore": "*\n", ".spok/CACHEDIR.TAG": "Signature: 8a477f597d28d172789f06886806bc55"})
 	}
 	cwd := sproj
